@@ -519,13 +519,38 @@ def seq_result(fn):
         return ("exc", type(e).__name__, str(e))
 
 
-def explore_program(names, bound, acc, max_exec=None, first=None, shard=None):
+def _cold_seq(names):
+    ops = thread_ops()
+    return [seq_result(ops[n]) for n in names]
+
+
+def _cold_exec(names, prefix, bound):
+    """(child) one schedule from the pristine import state."""
+    ops = thread_ops()
+    ch = engine.Chooser(list(prefix), None)
+    s = threads.Scheduler([ops[n] for n in names], ch, bound)
+    res = s.run()
+    return res, ch.choices, ch.widths, ch.costs, s.both_in_walk, s.points
+
+
+class _Meta:
+    def __init__(self, both, points):
+        self.both_in_walk, self.points = both, points
+
+
+def explore_program(names, bound, acc, max_exec=None, first=None, shard=None, cold=False):
+    """cold: every schedule (and each sequential reference run) is executed in a forked child of this process,
+    which never runs a library operation itself - so each schedule starts from the import state and races
+    on FIRST use (lazily built tables) are reachable, not only steady-state ones."""
     ops = thread_ops()
     fns = [ops[n] for n in names]
-    want = [seq_result(f) for f in fns]
+    want = [in_fork(_cold_seq, [n])[0] for n in names] if cold else [seq_result(f) for f in fns]
     info = {"both": False, "pts": 0}
 
     def run(ch):
+        if cold:
+            res, ch.choices, ch.widths, ch.costs, both, pts = in_fork(_cold_exec, list(names), list(ch.prefix), bound)
+            return res, _Meta(both, pts)
         s = threads.Scheduler(fns, ch, bound)
         res = s.run()
         return res, s
@@ -537,8 +562,8 @@ def explore_program(names, bound, acc, max_exec=None, first=None, shard=None):
         acc.evaluations += 1
         for i, (got, w) in enumerate(zip(res, want)):
             if got != w:
-                acc.violation(f"thread_result_differs_from_sequential|{names[i]}|with={'+'.join(n for j, n in enumerate(names) if j != i)}",
-                              {"kind": "sched", "program": list(names), "choices": list(ch.choices), "bound": bound}, f"{got!r:.160} vs {w!r:.160}")
+                acc.violation(f"thread_result_differs_from_sequential|{names[i]}|with={'+'.join(n for j, n in enumerate(names) if j != i)}" + ("|from_import_state" if cold else ""),
+                              {"kind": "sched", "program": list(names), "choices": list(ch.choices), "bound": bound, "cold": cold}, f"{got!r:.160} vs {w!r:.160}")
 
     st = engine.explore(run, bound=bound, merge=False, on_exec=on_exec, max_exec=max_exec, root_prefix=None if first is None else [first], dev_shard=shard)
     acc.transitions += st["points"]
@@ -597,12 +622,13 @@ def replay_inproc(case):
         ops = thread_ops()
         names = case["program"]
         fns = [ops[n] for n in names]
-        want = [seq_result(f) for f in fns]
+        cold = bool(case.get("cold"))
+        want = [in_fork(_cold_seq, [n])[0] for n in names] if cold else [seq_result(f) for f in fns]
         s = threads.Scheduler(fns, engine.Chooser(case["choices"], None), case.get("bound"))
         res = s.run()
         for i, (got, w) in enumerate(zip(res, want)):
             if got != w:
-                acc.violation(f"thread_result_differs_from_sequential|{names[i]}|with={'+'.join(n for j, n in enumerate(names) if j != i)}", case, "")
+                acc.violation(f"thread_result_differs_from_sequential|{names[i]}|with={'+'.join(n for j, n in enumerate(names) if j != i)}" + ("|from_import_state" if cold else ""), case, "")
     return [(k2, v[2]) for k2, v in acc.viol.items()]
 
 
@@ -648,6 +674,10 @@ def _eval_block(block, acc):
         history_block(block[1], block[2], acc, block[3] if len(block) > 3 else None)
         if len(acc.samples) < 1:
             acc.sample({"history": [block[1][0]] + (["<every event of the (sub-)alphabet>"] * (block[2] - 1)), "then": "probe set", "digest_nodes": acc.extra["digest_nodes"]})
+    elif kind == "coldsched":
+        _, names, bound, first, shard = block
+        st, info = explore_program(tuple(names), bound, acc, None, first, tuple(shard) if shard else None, cold=True)
+        acc.extra["cold_schedules"] += st["executions"]
     elif kind == "sched":
         _, names, bound, cap = block[:4]
         first = block[4] if len(block) > 4 else None
@@ -705,6 +735,11 @@ def run_tier(tier, t0):
         for first in (0, 1):
             for k in range(K):
                 blocks.append(("sched", [a, b], 1, None, first, (k, K)))
+    COLD_PAIRS = [("parse_valget", "parse_valget"), ("config_set", "parse_valget"), ("config_set", "config_set"), ("parse_gnss_1", "parse_gnss_2"), ("build_gnss", "parse_gnss_1"), ("tp5_poll", "tp5_set")]
+    for a, b in (COLD_PAIRS if q else pairs):
+        for first in (0, 1):
+            for k in range(K):
+                blocks.append(("coldsched", [a, b], 1, first, (k, K)))
     if not q:
         for a, b in pairs:
             for first in (0, 1):
@@ -724,7 +759,7 @@ def run_tier(tier, t0):
             + (f"over a {len(sub)}-event sub-alphabet as second event" if q else f"and length 3 over a {len(sub)}-event sub-alphabet")
             + f" with probe-set comparison, all {len(sp)} adjacent ordered pairs of events that share a class/ID (and every event applied twice in a row)" + ("" if q else " and all ordered pairs of parse events") + ", fd 1/2 captured around every event; (c) all {len(pairs)} unordered pairs of {len(ops)} colliding operations as real threads under the cooperative scheduler, "
             + ("every schedule with <= 1 preemption" if q else "every schedule with <= 1 preemption, <= 2 preemptions (capped at 8,000 executions per shard = 64,000 per pair, caps listed), 20 triples at bound 1")
-            + ". transitions = events applied + scheduling points executed; distinct_nontrivial = outcome classes"
+            + f"; {len(COLD_PAIRS) if q else len(pairs)} pairs also with every schedule (<= 1 preemption) started from the import state in a forked child (first-use races)" + ". transitions = events applied + scheduling points executed; distinct_nontrivial = outcome classes"
         ),
         assumptions=[
             "scheduling points are line events inside the pyubx2 package (sys.settrace); preemption inside a single bytecode is not modelled (GIL); free-threaded builds out of scope",
